@@ -40,7 +40,8 @@
 (* parts (qualifier x {none, 5 operators} x arch lists of 1..MaxArch plain/*)
 (* negated entries x formulas of 1..MaxGroups groups of 1..MaxTerms plain/ *)
 (* negated terms: 3612 atom shapes for 2/2/2), placed at every position of *)
-(* every list shape (1..MaxConj conjuncts of 1..MaxAlt alternatives); the  *)
+(* every list shape (1..MaxConj conjuncts of 1..MaxAlt alternatives, at    *)
+(* most MaxAtoms atoms); the                                               *)
 (* other positions hold a context atom (bare name, or an atom with every   *)
 (* optional part), so that every atom ending (name, qualifier, ')', ']',   *)
 (* '>') meets both separators.  Invariants, evaluated in every state:      *)
@@ -71,6 +72,7 @@
 EXTENDS Integers, Sequences, FiniteSets, TLC, Json
 
 CONSTANTS MaxConj, MaxAlt,       \* list shape bounds
+          MaxAtoms,              \* atoms in a relation (focus + context atoms)
           MaxArch,               \* longest architecture list
           MaxGroups, MaxTerms,   \* restriction formula bounds
           OpIds,                 \* subset of 1..5
@@ -297,6 +299,7 @@ Init == /\ ctx \in CtxKinds
         /\ rel \in {<<<<a>>>> : a \in FocusAtoms}
 
 \* grow the relation around the focus atom with context atoms, on either side
+NAtoms(r)   == AtomsBefore(r, Len(r) + 1)
 AppendAlt   == /\ Len(rel[Len(rel)]) < MaxAlt
                /\ rel' = [rel EXCEPT ![Len(rel)] = Append(@, CtxAtom(ctx))]
 PrependAlt  == /\ Len(rel[1]) < MaxAlt
@@ -305,7 +308,9 @@ AppendConj  == /\ Len(rel) < MaxConj
                /\ rel' = Append(rel, <<CtxAtom(ctx)>>)
 PrependConj == /\ Len(rel) < MaxConj
                /\ rel' = <<<<CtxAtom(ctx)>>>> \o rel
-Next == (AppendAlt \/ PrependAlt \/ AppendConj \/ PrependConj) /\ UNCHANGED ctx
+Next == /\ NAtoms(rel) < MaxAtoms
+        /\ (AppendAlt \/ PrependAlt \/ AppendConj \/ PrependConj)
+        /\ UNCHANGED ctx
 Spec == Init /\ [][Next]_vars
 
 ----------------------------------------------------------------------------
